@@ -72,6 +72,7 @@ func checkC08(c *Ctx) {
 	r := c.R
 	r.Decides = append(r.Decides,
 		"K1 for every decoder (function of dhcpv4/dhcpv6/iana/rfc1035label taking wire bytes as []byte or *uio.Lexer and returning an error) no alias of the input may be reachable from the receiver, another parameter, a result or a global after the call (E3 heap-effect summaries, all paths, whole call-graph closure)",
+		"K3 no decoder makes memory of a package-level variable part of the value it produces (decoded messages share nothing with each other)",
 		"K2 the result of (*DHCPv4).ToBytes, (*Message).ToBytes, (*RelayMessage).ToBytes is memory allocated during the call: it aliases neither the receiver's memory nor a global")
 	r.NotDecided = append(r.NotDecided, "nothing of the aliasing clause is left out, modulo the trusted models (uio.Lexer ADT, stdlib table) and the unverified analyser; observable consequences (printed form unchanged) follow from K1")
 	e := getE3(c)
@@ -92,6 +93,9 @@ func checkC08(c *Ctx) {
 			continue
 		}
 		r.Count("C08-K1-decoders", 1)
+		for _, x := range e.sharedGlobalFindings(f) {
+			r.Violation("C08-K3", name+": decoded value "+x.short, x.pos, x.detail)
+		}
 		fnd := e.retentionFindings(f, entries[f])
 		if len(fnd) == 0 {
 			r.OK("C08-K1", name+": input not retained", c.P.pos(f.Pos()), "E3: flows(Pd/Pr(input)) = ∅", "")
